@@ -239,7 +239,7 @@ class PythonTranslator(ASTTranslator):
         x = node.slice
         if isinstance(x, ast.Index):
             x = x.value
-        if isinstance(x, ast.Tuple):
+        if isinstance(x, ast.Tuple) and len(x.elts) > 1:
             key = ', '.join([elt.src for elt in x.elts])
         elif isinstance(x, ast.Constant) and isinstance(x.value, tuple):
             key = repr(x.value)[1:-1]
